@@ -1149,6 +1149,25 @@ def oracle_program(prog, rng=None):
         except Fail as f:
             fails.append((f.key, f.what, i))
             return fails
+        # every OTHER storer of the program (in particular the operands of earlier additions and the sums built from
+        # a storer that is filtered now) must still be what the plain-list reference says: no step may reach into
+        # another storer through a shared list / array
+        target = step["reg"] if op == "filter" else len(w.regs) - 1
+        bad_leaf = {j for _, _, j in fails}
+        nreg = -1
+        creators = []
+        for j, st in enumerate(prog["steps"][:i + 1]):
+            if st["op"] != "filter":
+                creators.append(j)
+        for r, (s_r, ref_r) in enumerate(zip(w.regs, refs)):
+            if r == target or creators[r] in bad_leaf or w.regs[target] is s_r:
+                continue
+            try:
+                check_state(s_r, ref_r, w.meta[r]["kind"], "later")
+            except Fail as f:
+                fails.append(("add-operand-modified-later",
+                              f"step {i} ({step_text(step)}) changed another storer r{r} ({step_text(prog['steps'][creators[r]])}): {f.what}", i))
+                return fails
     return fails
 
 
